@@ -79,7 +79,7 @@ def register(reg):
                  replay=_replay)
 
     # ---- parser state
-    reg.contract('lark.parsers.lalr_parser_state:ParserState.__init__', serves=S, kind='method',
+    reg.contract('lark.parsers.lalr_parser_state:ParserState.__init__', serves=S + ['C10'], kind='method',
                  params={'self': 'ParserState', 'parse_conf': 'ParseConf', 'lexer': 'opt[LexerThread]',
                          'state_stack': 'opt[list[int]]', 'value_stack': 'opt[list[Value]]'},
                  ghost={'defaults': {'state_stack': None, 'value_stack': None}},
@@ -94,7 +94,7 @@ def register(reg):
     reg.contract('lark.parsers.lalr_parser_state:ParserState.position', serves=S, kind='property', pure=True,
                  params={'self': 'ParserState'}, returns='int',
                  requires=['len(self.state_stack) >= 1'], ensures=['result == self.state_stack[len(self.state_stack)-1]'])
-    reg.contract('lark.parsers.lalr_parser_state:ParserState.copy', serves=S, kind='method',
+    reg.contract('lark.parsers.lalr_parser_state:ParserState.copy', serves=S + ['C10'], kind='method',
                  params={'self': 'ParserState', 'deepcopy_values': 'bool'}, returns='ParserState',
                  ghost={'defaults': {'deepcopy_values': True}},
                  requires=['len(self.state_stack) >= 1'],
